@@ -596,3 +596,15 @@ def kwarg(call, name):
         if k.arg == name:
             return k.value
     return None
+
+
+def eqsrc(node, src):
+    """node is structurally the expression/statement written as `src`."""
+    try:
+        tree = ast.parse(src)
+    except SyntaxError:
+        return False
+    want = tree.body[0]
+    if isinstance(want, ast.Expr) and not isinstance(node, ast.stmt):
+        want = want.value
+    return node is not None and unparse(node) == unparse(want)
